@@ -120,7 +120,7 @@ def make_configs(rnd, n):
         cfgs.append(specrun.rand_config(rnd, kind))
         if i % 8 == 4:  # U-gram (ugram.py): unions with a repeated child, products, reverse rules that are ordinary / equivalences
             cfg = dict(cfgs[-1])
-            cfg.update(gram=[rnd.choice(["S", "F", "Y", "E", "Q", "Q", "P", "P"]) for _ in range(rnd.choice([1, 2, 2, 3]))], gram_flat=rnd.random() < 0.7,
+            cfg.update(gram=[rnd.choice(["S", "F", "Y", "E", "Q", "Q", "P", "P", "R"]) for _ in range(rnd.choice([1, 2, 2, 3]))], gram_flat=rnd.random() < 0.7,
                        alpha="ab", patterns=[], params=[], mode="", prefix="", prefver=None, packver=None, factory=None, rot=False, sep=None,
                        reverse_needed=False, symmetry=False, inferral=False, iterative=False, reverse=True)
             if cfg["gram_flat"] and rnd.random() < 0.6:
